@@ -172,8 +172,33 @@ def x2(ctx):
     crate = ctx.lib()
     b = ctor(crate)
     ins = [c for c in b.calls if c.callee and c.callee.name == "insert" and "HashMap" in (c.callee.impl_self or "") and not b.blocks[c.bb]["cleanup"]]
-    if not ctx.floor("result-table inserts", len(ins), 1):
+    # entry API: `match map.entry(k) { Occupied(_) => continue, Vacant(v) => { v.insert(x); } }` — the insert is first-pop-wins by
+    # construction (a vacant entry), its key is the argument of entry()
+    vins = [c for c in b.calls if c.callee and c.callee.name == "insert" and "VacantEntry" in (c.callee.impl_self or "") and not b.blocks[c.bb]["cleanup"]]
+    ors = [c for c in b.calls if c.callee and c.callee.name in ("or_insert", "or_insert_with") and "Entry" in (c.callee.impl_self or "") and not b.blocks[c.bb]["cleanup"]]
+    if not ctx.floor("result-table inserts", len(ins) + len(vins) + len(ors), 1):
         return
+    for c in vins + ors:
+        ent = None
+        for x in role_walk(b.role_of_operand(c.args[0])):
+            if isinstance(x, tuple) and x[0] == "call" and x[1] == "entry" and len(x[3]) == 2:
+                ent = x
+        key = strip_role(ent[3][1]) if ent else None
+        val = strip_role(b.role_of_operand(c.args[1]))
+        ctx.check(ent is not None, "first-pop-wins", "the table is filled through a vacant entry (an occupied one is left alone)",
+                  "Extractor::new fills the table through an entry that is not derived from map.entry(key)", where_of(b, c.bb))
+        if ent is None:
+            continue
+        pops = {x[4] for x in role_walk(val) if isinstance(x, tuple) and x[0] == "call" and x[1] == "pop"}
+        kpops = {x[4] for x in role_walk(key) if isinstance(x, tuple) and x[0] == "call" and x[1] == "pop"}
+        okv = isinstance(val, tuple) and val[0] == "agg" and len(val[2]) == 2 and len(pops) == 1 and kpops == pops
+        ctx.check(okv, "entry-from-one-pop", "table entry = (node, cost) of one popped element, keyed by lookup(that node).id",
+                  "the table entry %s / key %s is not built from one popped heap element: the reported cost is not the stored node's cost" % (role_str(val), role_str(key)), where_of(b, c.bb))
+        if okv:
+            n0, n1 = strip_role(val[2][0]), strip_role(val[2][1])
+            okf = isinstance(n0, tuple) and n0[0] == "field" and n0[2] == "0" and isinstance(n1, tuple) and n1[0] == "field" and n1[2] == "1"
+            ctx.check(okf, "entry-fields-in-place", "entry.0 is the popped node and entry.1 the popped cost", "the table entry mixes up node and cost: %s" % role_str(val), where_of(b, c.bb))
+            ctx.check(role_mentions_call(key, "lookup"), "key-is-class-of-node", "the key is the class that the popped node looks up to", "the key %s is not the class of the popped node" % role_str(key), where_of(b, c.bb))
     for c in ins:
         key = strip_role(b.role_of_operand(c.args[1]))
         val = strip_role(b.role_of_operand(c.args[2]))
